@@ -30,9 +30,11 @@ fn clamp(x: i128, lo: i128, hi: i128) -> i128 {
     x.max(lo).min(hi)
 }
 
-/// Fixed witnesses of the known defects, replayed first in every run:
-/// F1 `(10u8..0)` with 4 replicas (replica 1 yields 9..10), F1 `(5u64..3)` (subtraction overflow),
-/// F7 `(2^63..2^63+10usize)` with 2 replicas, F10 `(250u8..255)` with 8 replicas (replica 6 starts at 256).
+/// Fixed regression inputs, replayed first in every run: the inputs on which the code failed before the fix
+/// ebec77c and must now satisfy the property:
+/// F1 `(10u8..0)` with 4 replicas (replica 1 used to yield 9..10), F1 `(5u64..3)` (used to panic on the
+/// subtraction), F7 `(2^63..2^63+10usize)` with 2 replicas (used to panic in try_into), F10 `(250u8..255)`
+/// with 8 replicas (replica 6 used to panic: start offset 256 does not fit u8).
 const WITNESSES: [(&str, i128, i128, i128); 4] = [
     ("u8", 10, 0, 4),
     ("u64", 5, 3, 1),
